@@ -58,6 +58,10 @@ func (w *W) c07Docs(th bool) []c07Doc {
 		add(fmt.Sprintf("bad-middle-%dbuf", nb), append(append(append(append([]byte("["), inner[:mid+1]...), []byte("nul,")...), inner[mid+1:]...), ']'))
 		add(fmt.Sprintf("bad-last-token-%dbuf", nb), append(append(append([]byte("["), inner...), []byte(",fals")...), ']'))
 		add(fmt.Sprintf("stage1-only-control-char-%dbuf", nb), append(append(append([]byte("["), inner...), []byte(",\"ctl\x01\"")...), ']'))
+		// the same stage-1-only failure early on: stage 1 knows after its first (or a middle) round
+		// that the document is bad while dozens of buffers are still to be produced and handed over
+		add(fmt.Sprintf("stage1-control-char-first-%dbuf", nb), append(append([]byte("[\"ctl\x01\","), inner...), ']'))
+		add(fmt.Sprintf("stage1-control-char-middle-%dbuf", nb), append(append(append(append([]byte("["), inner[:mid+1]...), []byte("\"ctl\x02\",")...), inner[mid+1:]...), ']'))
 		add(fmt.Sprintf("stage1-unterminated-%dbuf", nb), append(append([]byte("["), inner...), []byte(`,"open`)...))
 		add(fmt.Sprintf("both-stages-%dbuf", nb), append(append(append([]byte("[tru,"), inner...), []byte(",\"ctl\x01\"")...), ']'))
 		add(fmt.Sprintf("unclosed-scope-%dbuf", nb), append(append([]byte("[["), inner...), ']'))
